@@ -110,7 +110,8 @@ structure WF (g : G) : Prop where
   port : ∀ (o : Nat) (ob : Obj) (pid : Nat), g.objs[o]? = some ob → (pid ∈ ob.inPorts ∨ pid ∈ ob.outPorts) →
       ∃ (pt : Port) (w : Nat) (wr : Wire), g.ports[pid]? = some pt ∧ pt.wire = some w ∧ g.wires[w]? = some wr
   src : ∀ (w : Nat) (wr : Wire) (sp : Nat), g.wires[w]? = some wr → wr.source = some sp →
-      ∃ (spt : Port) (sob : Obj), g.ports[sp]? = some spt ∧ g.objs[spt.parent]? = some sob ∧ sp ∈ sob.outPorts
+      ∃ (spt : Port) (sob : Obj), g.ports[sp]? = some spt ∧ g.objs[spt.parent]? = some sob ∧
+        (sp ∈ sob.outPorts ∨ sp ∈ sob.inOutPorts)
 
 theorem wf_inBad {g : G} (h : WF g) {o : Nat} {ob : Obj} {pid : Nat} (ho : g.objs[o]? = some ob)
     (hm : pid ∈ ob.inPorts ∨ pid ∈ ob.outPorts) : inBad g pid = undriven g pid ∧ outBad g pid = undriven g pid := by
@@ -121,7 +122,7 @@ theorem wf_inBad {g : G} (h : WF g) {o : Nat} {ob : Obj} {pid : Nat} (ho : g.obj
   | none => simp [isOk]
   | some sp =>
     obtain ⟨spt, sob, h1, h2, h3⟩ := h.src w wr sp hwr hs
-    simp [isOk, checkPort, h1, h2, h3]
+    rcases h3 with h3 | h3 <;> simp [checkPort, h1, h2, h3]
 
 theorem any_congr_mem {α : Type} (l : List α) (p q : α → Bool) (h : ∀ a ∈ l, p a = q a) : l.any p = l.any q := by
   induction l with
@@ -292,8 +293,8 @@ theorem WF_frame {g g' : G} (h : WF g)
     (hp : ∀ (pid : Nat) (pt : Port), g.ports[pid]? = some pt → g'.ports[pid]? = some pt)
     (ho1 : ∀ (o : Nat) (ob' : Obj) (pid : Nat), g'.objs[o]? = some ob' → (pid ∈ ob'.inPorts ∨ pid ∈ ob'.outPorts) →
         ∃ ob, g.objs[o]? = some ob ∧ (pid ∈ ob.inPorts ∨ pid ∈ ob.outPorts))
-    (ho2 : ∀ (o : Nat) (ob : Obj) (pid : Nat), g.objs[o]? = some ob → pid ∈ ob.outPorts →
-        ∃ ob', g'.objs[o]? = some ob' ∧ pid ∈ ob'.outPorts) : WF g' := by
+    (ho2 : ∀ (o : Nat) (ob : Obj) (pid : Nat), g.objs[o]? = some ob → (pid ∈ ob.outPorts ∨ pid ∈ ob.inOutPorts) →
+        ∃ ob', g'.objs[o]? = some ob' ∧ (pid ∈ ob'.outPorts ∨ pid ∈ ob'.inOutPorts)) : WF g' := by
   constructor
   · intro w wr' h1; exact (hw1 w wr' h1).1
   · intro o ob' pid h1 h2
@@ -309,7 +310,8 @@ theorem WF_frame {g g' : G} (h : WF g)
 
 /-- object updates that keep the port lists -/
 theorem WF_modObj {g : G} (h : WF g) (o : Nat) (f : Obj → Obj)
-    (hf : ∀ ob, (f ob).inPorts = ob.inPorts ∧ (f ob).outPorts = ob.outPorts) : WF (modObj g o f) := by
+    (hf : ∀ ob, (f ob).inPorts = ob.inPorts ∧ (f ob).outPorts = ob.outPorts ∧ (f ob).inOutPorts = ob.inOutPorts) :
+    WF (modObj g o f) := by
   apply WF_frame h
   · intro w wr' h1; exact ⟨h.nobidir w wr' h1, fun sp hs => ⟨wr', h1, hs⟩⟩
   · intro w wr h1; exact ⟨wr, h1⟩
@@ -319,12 +321,12 @@ theorem WF_modObj {g : G} (h : WF g) (o : Nat) (f : Obj → Obj)
     refine ⟨a, ha, ?_⟩
     subst hb
     by_cases e : o = o'
-    · simp only [e, ite_true] at h2; rw [(hf a).1, (hf a).2] at h2; exact h2
+    · simp only [e, ite_true] at h2; rw [(hf a).1, (hf a).2.1] at h2; exact h2
     · simp only [e, ite_false] at h2; exact h2
   · intro o' ob pid h1 h2
     refine ⟨_, modify_of_some h1, ?_⟩
     split
-    · rw [(hf ob).2]; exact h2
+    · rw [(hf ob).2.1, (hf ob).2.2]; exact h2
     · exact h2
 
 /-- wire updates that keep `bidir` and `source` -/
@@ -370,7 +372,7 @@ theorem WF_appendWire (g : G) (p w : Nat) (h : WF g) : WF (appendWire g p w).1 :
   split
   · split
     · exact h
-    · exact WF_modObj h _ _ (fun _ => ⟨rfl, rfl⟩)
+    · exact WF_modObj h _ _ (fun _ => ⟨rfl, rfl, rfl⟩)
   · exact h
 
 theorem WF_delWireKey (g : G) (w : Nat) (h : WF g) : WF (delWireKey g w).1 := by
@@ -380,7 +382,7 @@ theorem WF_delWireKey (g : G) (w : Nat) (h : WF g) : WF (delWireKey g w).1 := by
   · split
     · exact h
     · split
-      · exact WF_modObj h _ _ (fun _ => ⟨rfl, rfl⟩)
+      · exact WF_modObj h _ _ (fun _ => ⟨rfl, rfl, rfl⟩)
       · exact h
 
 theorem WF_newWire (g : G) (p : Nat) (n : String) (h : WF g) : WF (newWire g p n false).1 := by
@@ -442,60 +444,104 @@ theorem WF_regSink (g : G) (w pid : Nat) (h : WF g) : WF (regSink g w pid).1 := 
   · exact h
   · exact WF_modWire h w _ (fun _ => ⟨rfl, rfl⟩)
 
-/-- attaching a new port that is NOT a registered driver -/
-theorem WF_attach {g : G} (h : WF g) (pt : Port) (o w : Nat) (wr : Wire) (hw : g.wires[w]? = some wr)
-    (hpw : pt.wire = some w) (f : Obj → Obj)
-    (hf : ∀ ob, ((f ob).inPorts = ob.inPorts ++ [g.ports.length] ∧ (f ob).outPorts = ob.outPorts) ∨
-               ((f ob).inPorts = ob.inPorts ∧ (f ob).outPorts = ob.outPorts ++ [g.ports.length])) :
-    WF (modObj (pushPort g pt) o f) := by
+/-- listing a new port (id = `g.ports.length`) in one of the three port lists of `o`: in/out lists gain at most the new
+    port, nothing is removed -/
+structure Lists (g : G) (f : Obj → Obj) : Prop where
+  inp : ∀ (ob : Obj) (x : Nat), x ∈ (f ob).inPorts → x ∈ ob.inPorts ∨ x = g.ports.length
+  out : ∀ (ob : Obj) (x : Nat), x ∈ (f ob).outPorts → x ∈ ob.outPorts ∨ x = g.ports.length
+  mono : ∀ (ob : Obj) (x : Nat), (x ∈ ob.outPorts → x ∈ (f ob).outPorts) ∧ (x ∈ ob.inOutPorts → x ∈ (f ob).inOutPorts)
+
+/-- general step "a new port attached to wire `w` is listed at `o`": the wire table `g1.wires` may differ from `g.wires`
+    in non-`bidir` fields, and in `source` only at `w`, where it may name the new port — provided the new port is then
+    listed in outPorts or inOutPorts of `o` (`hnew`) -/
+theorem WF_attach_gen {g g1 : G} (h : WF g) (ho1 : g1.objs = g.objs) (hp1 : g1.ports = g.ports)
+    (hw1 : ∀ (w' : Nat) (wr' : Wire), g1.wires[w']? = some wr' → ∃ a, g.wires[w']? = some a ∧ wr'.bidir = a.bidir ∧
+        (wr'.source = a.source ∨ wr'.source = some g.ports.length))
+    (hw2 : ∀ (w' : Nat) (a : Wire), g.wires[w']? = some a → ∃ wr', g1.wires[w']? = some wr')
+    (pt : Port) (o w : Nat) (ob : Obj) (wr : Wire) (hob : g.objs[o]? = some ob) (hw : g.wires[w]? = some wr)
+    (hpo : pt.parent = o) (hpw : pt.wire = some w) (f : Obj → Obj) (hf : Lists g f)
+    (hnew : (∃ (w' : Nat) (wr' : Wire), g1.wires[w']? = some wr' ∧ wr'.source = some g.ports.length) →
+        g.ports.length ∈ (f ob).outPorts ∨ g.ports.length ∈ (f ob).inOutPorts) :
+    WF (modObj (pushPort g1 pt) o f) := by
+  have hports : ∀ (pid : Nat) (p : Port), g.ports[pid]? = some p → (g1.ports ++ [pt])[pid]? = some p := by
+    intro pid p p1
+    rw [hp1, List.getElem?_append_left (lt_of_getElem?_some p1)]; exact p1
   constructor
-  · exact h.nobidir
+  · intro w' wr' h1
+    obtain ⟨a, ha, hb, _⟩ := hw1 w' wr' h1
+    rw [hb]; exact h.nobidir w' a ha
   · intro o' ob' pid h1 h2
+    simp only [modObj_objs, pushPort_objs, ho1] at h1
     obtain ⟨a, ha, hb⟩ := modify_some h1
-    simp only [pushPort_objs] at ha
+    simp only [modObj_ports, pushPort_ports, modObj_wires, pushPort_wires]
     have old : (pid ∈ a.inPorts ∨ pid ∈ a.outPorts) → ∃ (pt' : Port) (w' : Nat) (wr' : Wire),
-        (modObj (pushPort g pt) o f).ports[pid]? = some pt' ∧ pt'.wire = some w' ∧
-        (modObj (pushPort g pt) o f).wires[w']? = some wr' := by
+        (g1.ports ++ [pt])[pid]? = some pt' ∧ pt'.wire = some w' ∧ g1.wires[w']? = some wr' := by
       intro hm
       obtain ⟨pt', w', wr', p1, p2, p3⟩ := h.port o' a pid ha hm
-      refine ⟨pt', w', wr', ?_, p2, p3⟩
-      simp only [modObj_ports, pushPort_ports]
-      rw [List.getElem?_append_left (lt_of_getElem?_some p1)]; exact p1
+      obtain ⟨wr1, p4⟩ := hw2 w' wr' p3
+      exact ⟨pt', w', wr1, hports pid pt' p1, p2, p4⟩
+    have new : pid = g.ports.length → ∃ (pt' : Port) (w' : Nat) (wr' : Wire),
+        (g1.ports ++ [pt])[pid]? = some pt' ∧ pt'.wire = some w' ∧ g1.wires[w']? = some wr' := by
+      intro e; subst e
+      obtain ⟨wr1, p4⟩ := hw2 w wr hw
+      exact ⟨pt, w, wr1, by rw [hp1]; simp, hpw, p4⟩
     subst hb
     by_cases e : o = o'
     · simp only [e, ite_true] at h2
-      have new : pid = g.ports.length → ∃ (pt' : Port) (w' : Nat) (wr' : Wire),
-          (modObj (pushPort g pt) o f).ports[pid]? = some pt' ∧ pt'.wire = some w' ∧
-          (modObj (pushPort g pt) o f).wires[w']? = some wr' := by
-        intro e; subst e
-        exact ⟨pt, w, wr, by simp, hpw, hw⟩
-      rcases hf a with ⟨e1, e2⟩ | ⟨e1, e2⟩
-      · rw [e1, e2] at h2
-        rcases h2 with h2 | h2
-        · simp only [List.mem_append, List.mem_singleton] at h2
-          rcases h2 with h2 | h2
-          · exact old (Or.inl h2)
-          · exact new h2
-        · exact old (Or.inr h2)
-      · rw [e1, e2] at h2
-        rcases h2 with h2 | h2
-        · exact old (Or.inl h2)
-        · simp only [List.mem_append, List.mem_singleton] at h2
-          rcases h2 with h2 | h2
-          · exact old (Or.inr h2)
-          · exact new h2
+      rcases h2 with h2 | h2
+      · rcases hf.inp a pid h2 with h3 | h3
+        · exact old (Or.inl h3)
+        · exact new h3
+      · rcases hf.out a pid h2 with h3 | h3
+        · exact old (Or.inr h3)
+        · exact new h3
     · simp only [e, ite_false] at h2
       exact old h2
   · intro w' wr' sp h1 h2
-    obtain ⟨spt, sob, p1, p2, p3⟩ := h.src w' wr' sp h1 h2
-    refine ⟨spt, _, ?_, modify_of_some p2, ?_⟩
-    · simp only [modObj_ports, pushPort_ports]
-      rw [List.getElem?_append_left (lt_of_getElem?_some p1)]; exact p1
-    · split
-      · rcases hf sob with ⟨_, e2⟩ | ⟨_, e2⟩
-        · rw [e2]; exact p3
-        · rw [e2]; exact List.mem_append_left _ p3
+    simp only [modObj_wires, pushPort_wires] at h1
+    simp only [modObj_ports, pushPort_ports, modObj_objs, pushPort_objs, ho1]
+    obtain ⟨a, ha, _, hs⟩ := hw1 w' wr' h1
+    have oldsrc : a.source = some sp → ∃ (spt : Port) (sob : Obj), (g1.ports ++ [pt])[sp]? = some spt ∧
+        (g.objs.modify o f)[spt.parent]? = some sob ∧ (sp ∈ sob.outPorts ∨ sp ∈ sob.inOutPorts) := by
+      intro hs'
+      obtain ⟨spt, sob, p1, p2, p3⟩ := h.src w' a sp ha hs'
+      refine ⟨spt, _, hports sp spt p1, modify_of_some p2, ?_⟩
+      split
+      · rcases p3 with p3 | p3
+        · exact Or.inl ((hf.mono sob sp).1 p3)
+        · exact Or.inr ((hf.mono sob sp).2 p3)
       · exact p3
+    rcases hs with hs | hs
+    · rw [hs] at h2; exact oldsrc h2
+    · rw [hs] at h2; cases h2
+      have hl := hnew ⟨w', wr', h1, hs⟩
+      have hm : (g.objs.modify o f)[pt.parent]? = some (if o = o then f ob else ob) := by
+        rw [hpo]; exact modify_of_some hob
+      refine ⟨pt, _, by rw [hp1]; simp, hm, ?_⟩
+      simpa using hl
+
+theorem lists_in (g : G) : Lists g (fun ob => { ob with inPorts := ob.inPorts ++ [g.ports.length] }) :=
+  ⟨fun ob x hx => by simpa using hx, fun ob x hx => Or.inl hx, fun ob x => ⟨id, id⟩⟩
+theorem lists_out (g : G) : Lists g (fun ob => { ob with outPorts := ob.outPorts ++ [g.ports.length] }) :=
+  ⟨fun ob x hx => Or.inl hx, fun ob x hx => by simpa using hx, fun ob x => ⟨fun h => List.mem_append_left _ h, id⟩⟩
+theorem lists_io (g : G) : Lists g (fun ob => { ob with inOutPorts := ob.inOutPorts ++ [g.ports.length] }) :=
+  ⟨fun ob x hx => Or.inl hx, fun ob x hx => Or.inl hx, fun ob x => ⟨id, fun h => List.mem_append_left _ h⟩⟩
+
+/-- the wire table after `regSink` -/
+theorem regSink_rel (g : G) (w pid : Nat) :
+    (regSink g w pid).1.objs = g.objs ∧ (regSink g w pid).1.ports = g.ports ∧
+    (∀ (w' : Nat) (wr' : Wire), (regSink g w pid).1.wires[w']? = some wr' →
+        ∃ a, g.wires[w']? = some a ∧ wr'.bidir = a.bidir ∧ wr'.source = a.source) ∧
+    (∀ (w' : Nat) (a : Wire), g.wires[w']? = some a → ∃ wr', (regSink g w pid).1.wires[w']? = some wr') := by
+  unfold regSink
+  split
+  · exact ⟨rfl, rfl, fun w' wr' h => ⟨wr', h, rfl, rfl⟩, fun w' a h => ⟨a, h⟩⟩
+  · refine ⟨rfl, rfl, ?_, fun w' a h => ⟨_, modify_of_some h⟩⟩
+    intro w' wr' h
+    obtain ⟨a, ha, hb⟩ := modify_some h
+    refine ⟨a, ha, ?_⟩
+    subst hb
+    split <;> exact ⟨rfl, rfl⟩
 
 theorem WF_addIn (g : G) (o : Nat) (n : String) (w : Nat) (h : WF g) : WF (addIn g o n w).1 := by
   unfold addIn
@@ -506,81 +552,37 @@ theorem WF_addIn (g : G) (o : Nat) (n : String) (w : Nat) (h : WF g) : WF (addIn
     cases hp : ob.prim with
     | false =>
       simp only [Bool.false_eq_true, ite_false, andThen]
-      exact WF_attach h _ o w wr hw rfl _ (fun _ => Or.inl ⟨rfl, rfl⟩)
+      exact WF_attach_gen h rfl rfl (fun w' wr' h1 => ⟨wr', h1, rfl, Or.inl rfl⟩) (fun w' a h1 => ⟨a, h1⟩) _ o w ob wr ho hw
+        rfl rfl _ (lists_in g) (fun ⟨w', wr', h1, hs⟩ => by
+          obtain ⟨spt, _, p1, _, _⟩ := h.src w' wr' _ h1 hs
+          exact absurd (lt_of_getElem?_some p1) (Nat.lt_irrefl _))
     | true =>
       simp only [ite_true]
       have hok : (regSink g w g.ports.length).2 = .ok () := by unfold regSink; rw [hw]
       rw [andThen_ok hok]
-      have h1 := WF_regSink g w g.ports.length h
-      have hports : (regSink g w g.ports.length).1.ports = g.ports := by unfold regSink; rw [hw]; rfl
-      have hw1 : ∃ wr1, (regSink g w g.ports.length).1.wires[w]? = some wr1 := by
-        unfold regSink; rw [hw]; exact ⟨_, modify_of_some hw⟩
-      obtain ⟨wr1, hw1⟩ := hw1
-      have := WF_attach h1 { kind := .inp, parent := o, name := n, wire := some w, reg := true } o w wr1 hw1 rfl
-        (fun ob => { ob with inPorts := ob.inPorts ++ [g.ports.length] })
-        (fun _ => Or.inl ⟨by rw [hports], rfl⟩)
-      exact this
+      obtain ⟨r1, r2, r3, r4⟩ := regSink_rel g w g.ports.length
+      exact WF_attach_gen h r1 r2 (fun w' wr' h1 => by
+          obtain ⟨a, ha, hb, hc⟩ := r3 w' wr' h1; exact ⟨a, ha, hb, Or.inl hc⟩) r4 _ o w ob wr ho hw
+        rfl rfl _ (lists_in g) (fun ⟨w', wr', h1, hs⟩ => by
+          obtain ⟨a, ha, _, hc⟩ := r3 w' wr' h1
+          rw [hc] at hs
+          obtain ⟨spt, _, p1, _, _⟩ := h.src w' a _ ha hs
+          exact absurd (lt_of_getElem?_some p1) (Nat.lt_irrefl _))
 
-/-- registering a driver on an undriven ordinary wire and listing the new out port -/
-theorem WF_drive {g : G} (h : WF g) (o w : Nat) (ob : Obj) (wr : Wire) (n : String) (ho : g.objs[o]? = some ob)
-    (hw : g.wires[w]? = some wr) :
-    WF (modObj (pushPort (modWire g w fun wr => { wr with source := some g.ports.length })
-        { kind := .out, parent := o, name := n, wire := some w, reg := true }) o
-        fun ob => { ob with outPorts := ob.outPorts ++ [g.ports.length] }) := by
-  have hports : ∀ (pid : Nat) (pt : Port), g.ports[pid]? = some pt →
-      (g.ports ++ [({ kind := .out, parent := o, name := n, wire := some w, reg := true } : Port)])[pid]? = some pt := by
-    intro pid pt p1
-    rw [List.getElem?_append_left (lt_of_getElem?_some p1)]; exact p1
-  constructor
-  · intro w' wr' h1
-    simp only [modObj_wires, pushPort_wires, modWire_wires] at h1
-    obtain ⟨a, ha, hb⟩ := modify_some h1
-    subst hb
-    split
-    · exact h.nobidir w' a ha
-    · exact h.nobidir w' a ha
-  · intro o' ob' pid h1 h2
-    simp only [modObj_objs, pushPort_objs, modWire_objs] at h1
-    obtain ⟨a, ha, hb⟩ := modify_some h1
-    simp only [modObj_ports, pushPort_ports, modWire_ports, modObj_wires, pushPort_wires, modWire_wires]
-    have old : (pid ∈ a.inPorts ∨ pid ∈ a.outPorts) → ∃ (pt' : Port) (w' : Nat) (wr' : Wire),
-        (g.ports ++ [({ kind := .out, parent := o, name := n, wire := some w, reg := true } : Port)])[pid]? = some pt' ∧
-        pt'.wire = some w' ∧
-        (g.wires.modify w fun wr => { wr with source := some g.ports.length })[w']? = some wr' := by
-      intro hm
-      obtain ⟨pt', w', wr', p1, p2, p3⟩ := h.port o' a pid ha hm
-      exact ⟨pt', w', _, hports pid pt' p1, p2, modify_of_some p3⟩
-    subst hb
-    by_cases e : o = o'
-    · simp only [e, ite_true] at h2
-      rcases h2 with h2 | h2
-      · exact old (Or.inl h2)
-      · simp only [List.mem_append, List.mem_singleton] at h2
-        rcases h2 with h2 | h2
-        · exact old (Or.inr h2)
-        · subst h2
-          exact ⟨{ kind := .out, parent := o, name := n, wire := some w, reg := true }, w, _, by simp, rfl, modify_of_some hw⟩
-    · simp only [e, ite_false] at h2
-      exact old h2
-  · intro w' wr' sp h1 h2
-    simp only [modObj_wires, pushPort_wires, modWire_wires] at h1
-    simp only [modObj_ports, pushPort_ports, modWire_ports, modObj_objs, pushPort_objs, modWire_objs]
-    obtain ⟨a, ha, hb⟩ := modify_some h1
-    by_cases e : w = w'
-    · subst e
-      simp only [ite_true] at hb
-      subst hb
-      simp only [Option.some.injEq] at h2
-      subst h2
-      refine ⟨{ kind := .out, parent := o, name := n, wire := some w, reg := true }, _, by simp, modify_of_some ho, ?_⟩
-      simp
-    · simp only [e, ite_false] at hb
-      subst hb
-      obtain ⟨spt, sob, p1, p2, p3⟩ := h.src w' wr' sp ha h2
-      refine ⟨spt, _, hports sp spt p1, modify_of_some p2, ?_⟩
-      split
-      · exact List.mem_append_left _ p3
-      · exact p3
+/-- the wire table after a successful `setSource` on an undriven ordinary wire -/
+theorem setSource_rel (g : G) (w : Nat) (wr : Wire) (hw : g.wires[w]? = some wr) :
+    (∀ (w' : Nat) (wr' : Wire), (modWire g w fun wr => { wr with source := some g.ports.length }).wires[w']? = some wr' →
+        ∃ a, g.wires[w']? = some a ∧ wr'.bidir = a.bidir ∧ (wr'.source = a.source ∨ wr'.source = some g.ports.length)) ∧
+    (∀ (w' : Nat) (a : Wire), g.wires[w']? = some a →
+        ∃ wr', (modWire g w fun wr => { wr with source := some g.ports.length }).wires[w']? = some wr') := by
+  refine ⟨?_, fun w' a h => ⟨_, modify_of_some h⟩⟩
+  intro w' wr' h
+  obtain ⟨a, ha, hb⟩ := modify_some h
+  refine ⟨a, ha, ?_⟩
+  subst hb
+  split
+  · exact ⟨rfl, Or.inr rfl⟩
+  · exact ⟨rfl, Or.inl rfl⟩
 
 theorem WF_addOut (g : G) (o : Nat) (n : String) (w : Nat) (h : WF g) : WF (addOut g o n w).1 := by
   unfold addOut
@@ -591,14 +593,53 @@ theorem WF_addOut (g : G) (o : Nat) (n : String) (w : Nat) (h : WF g) : WF (addO
     cases hp : ob.prim with
     | false =>
       simp only [Bool.false_eq_true, ite_false, andThen]
-      exact WF_attach h _ o w wr hw rfl _ (fun _ => Or.inr ⟨rfl, rfl⟩)
+      exact WF_attach_gen h rfl rfl (fun w' wr' h1 => ⟨wr', h1, rfl, Or.inl rfl⟩) (fun w' a h1 => ⟨a, h1⟩) _ o w ob wr ho hw
+        rfl rfl _ (lists_out g) (fun _ => Or.inl (by simp))
     | true =>
       simp only [ite_true, regSource, hw, h.nobidir w wr hw, Bool.false_eq_true, ite_false]
       cases hs : wr.source with
       | some s => simpa [andThen] using h
       | none =>
         simp only [Option.isSome_none, Bool.false_eq_true, ite_false, andThen]
-        exact WF_drive h o w ob wr n ho hw
+        obtain ⟨r3, r4⟩ := setSource_rel g w wr hw
+        exact WF_attach_gen h rfl rfl r3 r4 _ o w ob wr ho hw rfl rfl _ (lists_out g) (fun _ => Or.inl (by simp))
+
+/-- `addInOut` on ordinary wires: the InOutPort of a primitive becomes the source and is listed in `inOutPorts`,
+    which `checkPort` accepts since commit 2aca8d4 -/
+theorem WF_addInOut (g : G) (o : Nat) (n : String) (w : Nat) (h : WF g) : WF (addInOut g o n w).1 := by
+  unfold addInOut
+  split
+  · exact h
+  · exact h
+  · rename_i ob wr ho hw
+    cases hp : ob.prim with
+    | false =>
+      simp only [Bool.false_eq_true, ite_false, andThen]
+      exact WF_attach_gen h rfl rfl (fun w' wr' h1 => ⟨wr', h1, rfl, Or.inl rfl⟩) (fun w' a h1 => ⟨a, h1⟩) _ o w ob wr ho hw
+        rfl rfl _ (lists_io g) (fun _ => Or.inr (by simp))
+    | true =>
+      simp only [ite_true, regSource, hw, h.nobidir w wr hw, Bool.false_eq_true, ite_false]
+      cases hs : wr.source with
+      | some s => simpa [andThen] using h
+      | none =>
+        simp only [Option.isSome_none, Bool.false_eq_true, ite_false]
+        rw [andThen_ok (r := ((modWire g w fun wr => { wr with source := some g.ports.length }), Except.ok ())) rfl]
+        simp only
+        obtain ⟨r3, r4⟩ := setSource_rel g w wr hw
+        obtain ⟨s1, s2, s3, s4⟩ := regSink_rel (modWire g w fun wr => { wr with source := some g.ports.length }) w g.ports.length
+        have hok : (regSink (modWire g w fun wr => { wr with source := some g.ports.length }) w g.ports.length).2 = .ok () := by
+          unfold regSink
+          obtain ⟨x, hx⟩ := r4 w wr hw
+          rw [hx]
+        rw [andThen_ok hok]
+        refine WF_attach_gen h s1 s2 ?_ ?_ _ o w ob wr ho hw rfl rfl _ (lists_io g) (fun _ => Or.inr (by simp))
+        · intro w' wr' h1
+          obtain ⟨a, ha, hb, hc⟩ := s3 w' wr' h1
+          obtain ⟨a0, ha0, hb0, hc0⟩ := r3 w' a ha
+          exact ⟨a0, ha0, hb.trans hb0, by rw [hc]; exact hc0⟩
+        · intro w' a h1
+          obtain ⟨x, hx⟩ := r4 w' a h1
+          exact s4 w' x hx
 
 theorem WF_move (g : G) (w : Nat) (f : Wire → Wire) (p : G → Nat)
     (hf : ∀ wr, (f wr).bidir = wr.bidir ∧ (f wr).source = wr.source) (h : WF g) :
@@ -637,10 +678,10 @@ theorem WF_addIfSink (g : G) (o : Nat) (n : String) (i : Nat) (h : WF g) : WF (a
     · exact forEach_pred _ (fun g x hg => WF_addIn _ _ _ _ hg) _ _ h
     · intro g1 h1; exact forEach_pred _ (fun g x hg => WF_addOut _ _ _ _ hg) _ _ h1
 
-/-- the ordinary construction calls: everything except BidirWire creation, addInOut and disconnect -/
+/-- the ordinary construction calls: everything except BidirWire creation and disconnect
+    (`addInOut` on ordinary wires is included since commit 2aca8d4) -/
 def Op.ordinary : Op → Bool
   | .wire _ _ b => !b
-  | .addInOut _ _ _ => false
   | .disconnect _ _ => false
   | _ => true
 
@@ -652,7 +693,7 @@ theorem WF_step (g : G) (op : Op) (ho : op.ordinary = true) (h : WF g) : WF (ste
     exact WF_newWire _ _ _ h
   | addIn o n w => exact WF_addIn _ _ _ _ h
   | addOut o n w => exact WF_addOut _ _ _ _ h
-  | addInOut o n w => simp [Op.ordinary] at ho
+  | addInOut o n w => exact WF_addInOut _ _ _ _ h
   | rename w n => exact pre_pred (P := WF) h (fun g1 h1 => WF_move g1 w _ (fun g2 => wireParent g2 w) (fun _ => ⟨rfl, rfl⟩) h1)
   | reparent w p => exact pre_pred (P := WF) h (fun g1 h1 => WF_move g1 w _ (fun _ => p) (fun _ => ⟨rfl, rfl⟩) h1)
   | reparentAndRename w p n => exact pre_pred (P := WF) h (fun g1 h1 => WF_move g1 w _ (fun _ => p) (fun _ => ⟨rfl, rfl⟩) h1)
